@@ -35,6 +35,9 @@ META = {
 }
 LEVEL = "proof"
 
+KNOWN_SIX_DECIMALS = ("six-decimal order files: restart fails (add_traj: assert valid[ens] != 0) when an interface has more than six decimals "
+                      "and a live path's maximum lies above it by less than the rounding of order.txt")
+
 TXT = {"order.txt": 0, "energy.txt": 1, "traj.txt": 2}
 
 
@@ -437,6 +440,16 @@ def run(ctx):
     n_hair = len(hcases) + len(hextra)
     cases += hcases + hextra
     cmeta += hmeta + [None] * len(hextra)
+    # interfaces with MORE than six decimals (k + 3e-7, orders = position + 4e-7): path 4, accepted in [0+] at step 1
+    # with maximum 1.0000004 > 1.0000003, is stored with maximum 1.000000 < 1.0000003.  One fixed scenario, both
+    # tiers, oracle only (the disk model has no order values).  On /repo the restart dies in add_traj: reported as
+    # the known finding while known_findings.json lists it, as a VIOLATION otherwise; any other failure is a
+    # VIOLATION like everywhere else; if it passes it is an ordinary case.
+    fine_setup = dict(n_intf=3, workers=1, steps=8, seed=3, moves=["sh", "sh", "sh"], delete_old=True, hair=4e-7, hair_intf_shift=3e-7)
+    fine = [dict(setup=fine_setup, which=1, crash_at=k, torn=False, schedule=None) for k in (0, 5, 30)]
+    cases += fine
+    cmeta += [None] * len(fine)
+    fine_seen = {"known": 0, "ok": 0, "other": 0}
     res = H.run_many(CC.crash_case, cases, jobs=14, timeout=900)
     for c in cases[:3]:
         ctx.sample({k: v for k, v in c.items()})
@@ -454,7 +467,27 @@ def run(ctx):
         if harness and nbad < 6:
             nbad += 1
             ctx.violation(f"harness problem: {harness[0][:300]}", {"case": case, "problems": r["problems"]}, found_input=False)
-        if "hair" in case["setup"] and not r["info"].get("no_crash"):
+        if "hair_intf_shift" in case["setup"]:
+            bi = r["info"].get("below_interface")
+            is_known = (len(mine) == 1 and mine[0].startswith("restart after a crash") and "in add_traj: `assert valid[ens] != 0`" in mine[0]
+                        and isinstance(bi, list) and bi and all(0 < d < 5e-7 for _, _, d in bi))
+            if is_known:
+                fine_seen["known"] += 1
+                ctx.dist("interfaces-with-more-than-six-decimals:restart-dies-in-add_traj(known finding)")
+                if any("property=C08" in k and "six-decimal order files" in k for k in common.load_findings().get("known", [])):
+                    ctx.known(KNOWN_SIX_DECIMALS)
+                else:
+                    st = case["setup"]
+                    ctx.violation(f"C08 statement fails on the implementation: {mine[0].split(' :: ')[0][:200]} [interfaces "
+                                  f"{[v + st['hair_intf_shift'] for v in CC.hair_interfaces(st['n_intf'], st['hair'])]}, orders = position {st['hair']:+.0e}, "
+                                  f"moves {','.join(st['moves'])}, seed {st['seed']}, step {case['which'] + 1}; live paths stored BELOW their interface "
+                                  f"(slot, path, by): {[(a, b, float(f'{d:.1e}')) for a, b, d in bi]}]",
+                                  {"case": case, "problems": r["problems"], "info": r["info"]}, found_input=True)
+                mine = []
+            else:
+                fine_seen["other" if mine else "ok"] += 1
+                ctx.dist("interfaces-with-more-than-six-decimals:" + ("other-failure" if mine else "restart-ok"))
+        elif "hair" in case["setup"] and not r["info"].get("no_crash"):
             oi = r["info"].get("on_interface")
             ctx.dist("hair-restart:" + ("fresh-start" if oi is None else "unreadable" if isinstance(oi, str) else
                                         "loads-path-stored-on-its-interface:" + (",".join(sorted({mv for _, _, mv in oi})) or "none")))
@@ -490,7 +523,12 @@ def run(ctx):
                           {"case": case, "implementation": got, "model": out}, found_input=False)
     ctx.cov["rule"] = "one evaluation = one logged effect of a real treat_output matched with the model's effect list, or one crash experiment (kill at one effect index, restart, continue) judged by the oracle and compared with the model's recover(crash k t)"
     ctx.cov["correspondence"] = {"steps_traced": len(eff_meta), "crash_experiments": len(cases), "compared_with_model": len(reqs),
-                                 "of_which_orders_a_hair_off_an_interface": n_hair}
+                                 "of_which_orders_a_hair_off_an_interface": n_hair,
+                                 "of_which_interfaces_with_more_than_six_decimals": len(fine)}
+    ctx.cov["note_six_decimal_order_files"] = (
+        f"fixed scenario {fine_setup} (interfaces k + 3e-7, orders = position + 4e-7), crash in step 2 at effects 0, 5, 30, oracle only: "
+        f"{fine_seen['known']} restart(s) died in add_traj on a path stored below its interface by rounding (the known finding), "
+        f"{fine_seen['ok']} passed, {fine_seen['other']} failed otherwise (reported as violations)")
     ctx.cov["trusted_base"] += ["extraction + ocaml/c08_driver.ml", "py/crash_harness.py fault injector", "py/sysharness.py"]
     ctx.assumptions += ["a crash is process death: POSIX durability (fsync, page cache) is not modelled"]
 
